@@ -51,6 +51,7 @@ class Interp(object):
         self.overrides = {}       # fn path -> python callable(interp, st, args) -> (ret, st)
         self.static_cells = {}
         self.firstset_of = {}
+        self.watch = {}
         self.hash_names = {}      # const name suffix -> sym
         self.trace = False
         from . import summaries
@@ -1285,6 +1286,10 @@ class Interp(object):
             fv = self.operand(st, fr, t['f'])
             raise Undecided('indirect call %r' % (fv,))
         self.calls_seen[path] = self.calls_seen.get(path, 0) + 1
+        if self.watch:
+            for suf, sink in self.watch.items():
+                if path == suf or path.endswith('::' + suf):
+                    sink.append((fr.fname, [self.deref(st, a) if isinstance(a, Ref) else a for a in args]))
         if path in self.local_summaries and path not in self.no_summary:
             ret, st2 = self.local_summaries[path](self, st, fr, t, args)
         elif path in self.fns and (res is None or res.get('local', True)):
